@@ -13,9 +13,10 @@ from pyvc.stubs_lib import FREQ_DIM, TIME_DIM, TAU_T
 from pyvc.interp import ClassRef
 
 CONTRACTS = []
+NO_THM = r"^(?!.*thm\.)"
 # which components of a result belong to which property when a contract serves several
-TIME_PARTS = r"(\.data|sample_rate|start_time|\.type|raises|returns-normally|is-signal|frame)"
-FREQ_PARTS = r"(\.data|channel-labels|chan_bw|center_freq|freq_align|\.type|raises|returns-normally|is-signal)"
+TIME_PARTS = r"(thm\.C01|\.data|sample_rate|start_time|\.type|raises|returns-normally|is-signal|frame)"
+FREQ_PARTS = r"(thm\.C02|\.data|channel-labels|chan_bw|center_freq|freq_align|\.type|raises|returns-normally|is-signal)"
 RADIO = ["RadioSignal", "IntensitySignal", "FullStokesSignal", "BasebandSignal", "DualPolarizationSignal"]
 CTOR_PARAMS = {
     "Signal": ["sample_rate", "start_time", "meta"],
@@ -209,13 +210,478 @@ def spec_getitem_common(c, self, index, freq_axis):
     return construct(c, g.cls, data, like_attrs(g, **over))
 
 
-@contract("pulsarbat.core.Signal.__getitem__", inst_getitem(["Signal"], False), props={"C01": TIME_PARTS, "C16": None})
+@contract("pulsarbat.core.Signal.__getitem__", inst_getitem(["Signal"], False), props={"C01": TIME_PARTS, "C16": NO_THM})
 def spec_signal_getitem(c, self, index):
     return spec_getitem_common(c, self, index, False)
 
 
 @contract("pulsarbat.core.RadioSignal.__getitem__",
           inst_getitem(["RadioSignal", "IntensitySignal", "BasebandSignal", "DualPolarizationSignal", "FullStokesSignal"], True),
-          props={"C01": TIME_PARTS, "C02": FREQ_PARTS, "C16": None})
+          props={"C01": TIME_PARTS, "C02": FREQ_PARTS, "C16": NO_THM})
 def spec_radio_getitem(c, self, index):
     return spec_getitem_common(c, self, index, True)
+
+
+# --------------------------------------------------------------------------- constructors (C16)
+
+def valid_kwargs(interp, ctx, nm, cls, prefix="k"):
+    U = interp.stubs.units
+    kw = {"sample_rate": Qty(nm.real(f"{prefix}_sr", 1000), FREQ_DIM, U["Hz"])}
+    names = CTOR_PARAMS[cls]
+    if "center_freq" in names:
+        kw["center_freq"] = Qty(nm.real(f"{prefix}_cf", 10 ** 9), FREQ_DIM, U["MHz"])
+    if "chan_bw" in names:
+        kw["chan_bw"] = Qty(nm.real(f"{prefix}_bw", 500), FREQ_DIM, U["kHz"])
+    if "pol_type" in names:
+        kw["pol_type"] = "circular"
+    return kw
+
+
+PERTURB = {
+    "none": lambda kw, nm, U: None,
+    "sr_wrong_unit": lambda kw, nm, U: kw.update(sample_rate=Qty(nm.real("p_x", 3), TIME_DIM, U["s"])),
+    "sr_number": lambda kw, nm, U: kw.update(sample_rate=nm.real("p_x", 3)),
+    "sr_none": lambda kw, nm, U: kw.update(sample_rate=None),
+    "sr_array": lambda kw, nm, U: kw.update(sample_rate=Qty(sym_array("p_arr", (2,), "float64", nm=nm), FREQ_DIM, U["Hz"])),
+    "t0_time": lambda kw, nm, U: kw.update(start_time=STime(nm.real("p_t0", 77), "mjd", 3)),
+    "t0_number": lambda kw, nm, U: kw.update(start_time=nm.real("p_x", 59000)),
+    "t0_array": lambda kw, nm, U: kw.update(start_time=STime(sym_array("p_tarr", (2,), "float64", nm=nm))),
+    "t0_quantity": lambda kw, nm, U: kw.update(start_time=Qty(nm.real("p_x", 3), TIME_DIM, U["s"])),
+    "meta_dict": lambda kw, nm, U: kw.update(meta={"a": 1, "b": "x"}),
+    "meta_pairs": lambda kw, nm, U: kw.update(meta=[("a", 1)]),
+    "meta_int": lambda kw, nm, U: kw.update(meta=5),
+    "cf_wrong_unit": lambda kw, nm, U: kw.update(center_freq=Qty(nm.real("p_x", 3), TIME_DIM, U["s"])),
+    "cf_number": lambda kw, nm, U: kw.update(center_freq=nm.real("p_x", 3)),
+    "cf_array": lambda kw, nm, U: kw.update(center_freq=Qty(sym_array("p_arr", (2,), "float64", nm=nm), FREQ_DIM, U["Hz"])),
+    "bw_wrong_unit": lambda kw, nm, U: kw.update(chan_bw=Qty(nm.real("p_x", 3), (), U["one"])),
+    "bw_number": lambda kw, nm, U: kw.update(chan_bw=nm.real("p_x", 3)),
+    "align_bottom": lambda kw, nm, U: kw.update(freq_align="bottom"),
+    "align_top": lambda kw, nm, U: kw.update(freq_align="top"),
+    "align_bogus": lambda kw, nm, U: kw.update(freq_align="middle"),
+    "align_none": lambda kw, nm, U: kw.update(freq_align=None),
+    "pol_linear": lambda kw, nm, U: kw.update(pol_type="linear"),
+    "pol_bogus": lambda kw, nm, U: kw.update(pol_type="elliptical"),
+    "pol_missing": lambda kw, nm, U: kw.pop("pol_type"),
+    "cf_missing": lambda kw, nm, U: kw.pop("center_freq"),
+    "sr_missing": lambda kw, nm, U: kw.pop("sample_rate"),
+    "extra_kw": lambda kw, nm, U: kw.update(bogus_keyword=1),
+}
+PERTURB_NEEDS = {"cf": "center_freq", "bw": "chan_bw", "align": "freq_align", "pol": "pol_type"}
+DATA_VARIANTS = {
+    # name: (rank delta relative to required rank, dtype or None=class default, fixed-axis override)
+    "ok": (0, None, None), "extra_dim": (1, None, None), "too_few_dims": (-1, None, None),
+    "bad_fixed_axis": (0, None, 3), "int64": (0, "int64", None), "bool": (0, "bool", None),
+    "float32": (0, "float32", None), "float64": (0, "float64", None), "complex64": (0, "complex64", None),
+    "complex128": (0, "complex128", None),
+}
+
+
+def inst_ctor(cls):
+    from pyvc.sigmodel import REQ_RANK, FIXED_AX, DEFAULT_DTYPE
+    out = []
+    names = CTOR_PARAMS[cls]
+
+    def mk(dv, pv, backend="numpy"):
+        def build(interp, ctx, nm, dv=dv, pv=pv, backend=backend):
+            delta, dt, fixed = DATA_VARIANTS[dv]
+            rank = REQ_RANK[cls] + delta
+            shape = []
+            for ax in range(rank):
+                fx = FIXED_AX.get(cls, {}).get(ax)
+                if fx is not None:
+                    shape.append(fixed if fixed is not None else fx)
+                else:
+                    d = nm.int("d_N" if ax == 0 else f"d_S{ax}")
+                    ctx.assume(V.le(0, d), why="input: dims are non-negative")
+                    shape.append(d)
+            data = sym_array("d_data", shape, dt or DEFAULT_DTYPE[cls], backend, nm=nm)
+            kw = valid_kwargs(interp, ctx, nm, cls)
+            PERTURB[pv](kw, nm, interp.stubs.units)
+            return (ClassRef(interp.repo.get_class(f"pulsarbat.core.{cls}")), data), kw
+        return Instance(f"{cls},data={dv},{pv},{backend}", build)
+    for dv in DATA_VARIANTS:
+        if dv == "bad_fixed_axis" and cls not in ("FullStokesSignal", "DualPolarizationSignal"):
+            continue
+        out.append(mk(dv, "none"))
+    out.append(mk("ok", "none", "dask"))
+    for pv in PERTURB:
+        if pv == "none":
+            continue
+        need = PERTURB_NEEDS.get(pv.split("_")[0])
+        if need and need not in names:
+            continue
+        out.append(mk("ok", pv))
+    return out
+
+
+def ctor_body(interp, ctx, args, kwargs):
+    return interp.instantiate(args[0].ci, args[1:], kwargs, ctx)
+
+
+def ctor_real(pb, rargs, rkwargs):
+    return rargs[0](*rargs[1:], **rkwargs)
+
+
+def spec_ctor(c, cls, z, **kwargs):
+    """C16: the class contract at construction."""
+    params = CTOR_PARAMS[cls.ci.name]
+    for k in kwargs:
+        if k not in params:
+            raise PyExc("TypeError", f"unexpected keyword {k}")
+    for k in REQUIRED[cls.ci.name]:
+        if k not in kwargs:
+            raise PyExc("TypeError", f"missing keyword {k}")
+    attrs = dict(kwargs)
+    m = attrs.get("meta")
+    if m is not None:
+        if isinstance(m, dict):
+            attrs["meta"] = dict(m)
+        elif isinstance(m, (list, tuple)) and all(isinstance(p, tuple) and len(p) == 2 for p in m):
+            attrs["meta"] = dict(m)
+        else:
+            raise PyExc("ValueError", "meta must be a dict")
+    return construct(c, cls.ci, z, attrs)
+
+
+for _cls in SIGNAL_CLASSES:
+    _c = Contract(f"pulsarbat.core.{_cls}.__init__", spec_ctor, inst_ctor(_cls), props=("C16",), body=ctor_body)
+    _c.real_call = ctor_real
+    CONTRACTS.append(_c)
+
+
+# --------------------------------------------------------------------------- time properties (C01)
+
+class Rel:
+    """Relational postcondition: result constrained, not determined."""
+
+    def __init__(self, sym, conc=None):
+        self.sym, self.conc = sym, conc
+
+    def compare_to(self, interp, ctx, name, got):
+        self.sym(interp, ctx, name, got)
+
+    def compare_concrete(self, got, where, out, pb):
+        if self.conc is not None:
+            self.conc(got, where, out, pb)
+
+
+def inst_sig(classes, t0s=(True, False), **kw):
+    out = []
+    for cls in classes:
+        for has_t0 in t0s:
+            def build(interp, ctx, nm, cls=cls, has_t0=has_t0):
+                return (mk_signal(interp, ctx, "z", cls, has_t0=has_t0, nm=nm, **kw),), {}
+            out.append(Instance(f"{cls},t0={int(has_t0)}", build))
+    return out
+
+
+@contract("pulsarbat.core.Signal.time_length", inst_sig(["Signal", "BasebandSignal"], (True,)), props=("C01",))
+def spec_time_length(c, self):
+    g = c.view(self)
+    return Qty(V.div(c.ctx, g.N, g.sr.val), TIME_DIM)
+
+
+@contract("pulsarbat.core.Signal.dt", inst_sig(["Signal", "IntensitySignal"], (True,)), props=("C01",))
+def spec_dt(c, self):
+    g = c.view(self)
+    return Qty(V.div(c.ctx, 1, g.sr.val), TIME_DIM)
+
+
+@contract("pulsarbat.core.Signal.stop_time", inst_sig(["Signal", "DualPolarizationSignal"]), props=("C01",))
+def spec_stop_time(c, self):
+    """stop_time = start_time + length/sample_rate; None without a start time."""
+    g = c.view(self)
+    if g.t0 is None:
+        return None
+    return time_plus(c, g.t0, V.div(c.ctx, g.N, g.sr.val))
+
+
+@contract("pulsarbat.core.Signal.__len__", inst_sig(SIGNAL_CLASSES, (True,)), props=("C01", "C17"))
+def spec_len(c, self):
+    return c.view(self).N
+
+
+def inst_contains():
+    out = []
+    for cls in ["Signal", "RadioSignal"]:
+        for has_t0 in (True, False):
+            for tkind in ("scalar", "array"):
+                def build(interp, ctx, nm, cls=cls, has_t0=has_t0, tkind=tkind):
+                    z = mk_signal(interp, ctx, "z", cls, has_t0=has_t0, nm=nm)
+                    if tkind == "scalar":
+                        t = STime(nm.real("t"))
+                    else:
+                        m = nm.int("t_S0", 3)
+                        ctx.assume(V.le(0, m), why="input")
+                        t = STime(sym_array("t_arr", (m,), "float64", nm=nm))
+                    return (z, t), {}
+                out.append(Instance(f"{cls},t0={int(has_t0)},t={tkind}", build))
+    return out
+
+
+def spec_contains(c, self, t):
+    """Membership agrees with the half-open interval [start, stop) up to the resolution tau at
+    which Time can tell two instants apart; never true without a start time."""
+    g = c.view(self)
+    ctx = c.ctx
+    t1 = None if g.t0 is None else V.add(g.t0.sec, V.div(ctx, g.N, g.sr.val))
+
+    def clause(res, ts, ctx2, name):
+        if g.t0 is None:
+            ctx2.oblige(f"{name}.false-without-start", V.Not(res), "post")
+            return
+        inside = V.And(V.le(g.t0.sec, ts), V.lt(ts, t1))
+        ctx2.oblige(f"{name}.implies-inside", V.Implies(res, inside), "post")
+        ctx2.oblige(f"{name}.inside-away-from-stop", V.Implies(V.And(inside, V.lt(ts, V.sub(t1, TAU_T))), res), "post")
+        ctx2.oblige(f"{name}.inside-near-start", V.Implies(V.And(inside, V.le(V.sub(ts, g.t0.sec), TAU_T)), res), "post")
+
+    def sym(interp, ctx2, name, got):
+        if isinstance(t.sec, SArr):
+            if not isinstance(got, SArr):
+                ctx2.oblige(f"{name}.is-array", False, "post")
+                return
+            ctx2.oblige(f"{name}.shape", V.And(*[V.eq(a, b) for a, b in zip(got.shape, t.sec.shape)]) if got.ndim == t.sec.ndim else False, "post")
+            ctx2.oblige(f"{name}.dtype", got.dtype.kind == "b", "post")
+            with ctx2.scope():
+                ix = A.fresh_index(ctx2, t.sec.shape, "t")
+                clause(got.elem(ix), t.sec.elem(ix), ctx2, name + ".elem")
+        else:
+            if isinstance(got, SArr):
+                ctx2.oblige(f"{name}.is-scalar", False, "post")
+                return
+            clause(got, t.sec, ctx2, name)
+
+    def conc(got, where, out, pb):
+        from pyvc.concrete import Mismatch, materialize
+        import numpy as np
+        tol = float(TAU_T) * 4
+
+        def one(r, ts, w):
+            if g.t0 is None:
+                if r:
+                    out.append(Mismatch(w + ".false-without-start", r, False))
+                return
+            lo, hi = float(g.t0.sec), float(t1)
+            ts = float(ts)
+            if r and not (lo - tol <= ts < hi + tol):
+                out.append(Mismatch(w + ".implies-inside", r, False))
+            if not r and (lo + tol <= ts < hi - tol):
+                out.append(Mismatch(w + ".inside", r, True))
+        if isinstance(t.sec, SArr):
+            if not isinstance(got, SArr) or tuple(got.shape) != tuple(int(d) for d in t.sec.shape):
+                out.append(Mismatch(where + ".shape", getattr(got, "shape", None), t.sec.shape))
+                return
+            for k in range(int(t.sec.shape[0])):
+                one(bool(got.elem((k,))), t.sec.elem((k,)), f"{where}[{k}]")
+        else:
+            one(bool(got), t.sec, where)
+    return Rel(sym, conc)
+
+
+_cc = Contract("pulsarbat.core.Signal.contains", spec_contains, inst_contains(), props=("C01",))
+_cc.modular = False
+CONTRACTS.append(_cc)
+
+
+# --------------------------------------------------------------------------- frequency labels (C02)
+
+def inst_radio(aligns=("bottom", "center", "top"), classes=RADIO, **kw):
+    out = []
+    for cls in classes:
+        for al in aligns:
+            def build(interp, ctx, nm, cls=cls, al=al):
+                return (mk_signal(interp, ctx, "z", cls, align=al, nm=nm, **kw),), {}
+            out.append(Instance(f"{cls},align={al}", build))
+    return out
+
+
+@contract("pulsarbat.core.RadioSignal.channel_freqs", inst_radio(), props=("C02",))
+def spec_channel_freqs(c, self):
+    """Channel i is labelled center_freq + chan_bw*(i + a - nchan/2), a = 0, 1/2, 1 (forced to
+    1/2 when the channel count is odd)."""
+    g = c.view(self)
+    arr = SArr((g.nchan,), lambda ix: label(c, g, ix[0]), "float64")
+    return Qty(arr, FREQ_DIM)
+
+
+@contract("pulsarbat.core.RadioSignal.bandwidth", inst_radio(("center",)), props=("C02",))
+def spec_bandwidth(c, self):
+    g = c.view(self)
+    return Qty(V.mul(g.bw.val, g.nchan), FREQ_DIM)
+
+
+@contract("pulsarbat.core.RadioSignal.max_freq", inst_radio(("bottom",)), props=("C02",))
+def spec_max_freq(c, self):
+    g = c.view(self)
+    return Qty(V.add(g.cf.val, V.div(c.ctx, V.mul(g.bw.val, g.nchan), 2)), FREQ_DIM)
+
+
+@contract("pulsarbat.core.RadioSignal.min_freq", inst_radio(("top",)), props=("C02",))
+def spec_min_freq(c, self):
+    g = c.view(self)
+    return Qty(V.sub(g.cf.val, V.div(c.ctx, V.mul(g.bw.val, g.nchan), 2)), FREQ_DIM)
+
+
+@contract("pulsarbat.core.RadioSignal.nchan", inst_radio(("center",)), props=("C02",))
+def spec_nchan(c, self):
+    return c.view(self).nchan
+
+
+def inst_freq_slice():
+    out = []
+    for cls in ["RadioSignal", "BasebandSignal", "FullStokesSignal"]:
+        for al in ("bottom", "center", "top"):
+            for pat in FREQ_PATTERNS:
+                def build(interp, ctx, nm, cls=cls, al=al, pat=pat):
+                    z = mk_signal(interp, ctx, "z", cls, align=al, nm=nm)
+                    return (z, sym_slice(nm, "fx", pat)), {}
+                out.append(Instance(f"{cls},align={al},slice={pat}", build))
+    return out
+
+
+class BandOf:
+    """Result of _freq_slice compared through the labels it induces (representation-free)."""
+
+    def __init__(self, c, g, fa, fb):
+        self.c, self.g, self.fa, self.fb = c, g, fa, fb
+
+    def compare_to(self, interp, ctx, name, got):
+        if not isinstance(got, dict):
+            ctx.oblige(f"{name}.is-dict", False, "post")
+            return
+        ctx.oblige(f"{name}.keys", set(got) <= {"center_freq", "freq_align"} and "center_freq" in got, "post", {"got": sorted(got)})
+        if "center_freq" not in got or not isinstance(got["center_freq"], Qty):
+            return
+        al = got.get("freq_align", self.g.align)
+        if not isinstance(al, str) or al not in ALIGN_A:
+            ctx.oblige(f"{name}.freq_align", False, "post")
+            return
+        n2 = V.sub(self.fb, self.fa)
+        with ctx.scope():
+            i = ctx.fresh("chan", "int")
+            ctx.assume(z3.And(i >= 0, V.Z(i) < V.Z(n2)), why="skolem-channel")
+            # effective alignment of the sliced signal: 'center' when its channel count is odd
+            odd = V.eq(V.mod_int(ctx, n2, 2), 1)
+            a_eff = V.Ite(odd, Fraction(1, 2), ALIGN_A[al])
+            newlab = V.add(got["center_freq"].val, V.mul(self.g.bw.val, V.sub(V.add(V.R(i), a_eff), V.div(ctx, n2, 2))))
+            ctx.oblige(f"{name}.channel-labels", V.eq(newlab, label(self.c, self.g, V.add(self.fa, i))), "post")
+
+    def compare_concrete(self, got, where, out, pb):
+        from pyvc.concrete import Mismatch
+        if not isinstance(got, dict) or "center_freq" not in got:
+            out.append(Mismatch(where + ".keys", got, "center_freq"))
+            return
+        al = got.get("freq_align", self.g.align)
+        n2 = int(self.fb - self.fa)
+        a_eff = Fraction(1, 2) if n2 % 2 else ALIGN_A[al]
+        for i in range(n2):
+            new = float(got["center_freq"].val) + float(self.g.bw.val) * (i + float(a_eff) - n2 / 2)
+            w = float(label(self.c, self.g, self.fa + i))
+            if abs(new - w) > 1e-15 * 8 * max(abs(w), abs(float(self.g.bw.val)) * n2):
+                out.append(Mismatch(f"{where}.channel-labels[{i}]", new, w))
+                return
+
+
+_fs = Contract("pulsarbat.core.RadioSignal._freq_slice", None, inst_freq_slice(), props=("C02",))
+
+
+def spec_freq_slice(c, self, index):
+    """Selecting channels a:b (step 1, non-empty) keeps the labels of the selected channels."""
+    g = c.view(self)
+    if not isinstance(index, SSlice):
+        raise PyExc(("AttributeError", "TypeError"), "slice expected")
+    fa, fb, fst = A.slice_adjust(c.ctx, index, g.nchan)
+    raise_any(c, [(V.ne(fst, 1), "AssertionError"), (V.le(fb, fa), "AssertionError")])
+    return BandOf(c, g, fa, fb)
+
+
+_fs.spec = spec_freq_slice
+_fs.modular = False
+CONTRACTS.append(_fs)
+
+
+# FullStokes component access
+def inst_stokes_key():
+    out = []
+    for key in ("I", "Q", "U", "V", "X"):
+        for al in ("bottom", "center"):
+            def build(interp, ctx, nm, key=key, al=al):
+                z = mk_signal(interp, ctx, "z", "FullStokesSignal", align=al, extra_rank=1, nm=nm)
+                return (z, key), {}
+            out.append(Instance(f"key={key},align={al}", build))
+    def build(interp, ctx, nm):
+        z = mk_signal(interp, ctx, "z", "FullStokesSignal", align="top", nm=nm)
+        return (z, (sym_slice(nm, "ix", "ssn"), sym_slice(nm, "fx", "ssn"))), {}
+    out.append(Instance("slices", build))
+    return out
+
+
+STOKES_IDS = {"I": 0, "Q": 1, "U": 2, "V": 3}
+
+
+@contract("pulsarbat.core.FullStokesSignal.__getitem__", inst_stokes_key(), props={"C02": None, "C13": None, "C16": None})
+def spec_stokes_getitem(c, self, key):
+    """x['Q'] is component 1 of the Stokes axis as an IntensitySignal with identical time and
+    frequency labels; other keys raise KeyError; non-string keys slice like any radio signal."""
+    g = c.view(self)
+    if isinstance(key, str):
+        if key not in STOKES_IDS:
+            raise PyExc("KeyError", key)
+        data = A.take(c.ctx, g.data, STOKES_IDS[key], 2)
+        return construct(c, clsinfo(c, "IntensitySignal"), data, g.attrs())
+    return spec_getitem_common(c, self, key, True)
+
+
+def inst_stokes_prop():
+    def build(interp, ctx, nm):
+        return (mk_signal(interp, ctx, "z", "FullStokesSignal", align="bottom", nm=nm),), {}
+    return [Instance("FullStokesSignal", build)]
+
+
+for _name in "IQUV":
+    def _spec(c, self, _name=_name):
+        return spec_stokes_getitem(c, self, _name)
+    CONTRACTS.append(Contract(f"pulsarbat.core.FullStokesSignal.stokes{_name}", _spec, inst_stokes_prop(), props=("C02", "C13")))
+
+
+# --------------------------------------------------------------------------- property-level theorems on slicing
+
+def getitem_theorems(c, result, self, index):
+    """C01.a / C02.a stated directly on what the real __getitem__ returned."""
+    ctx = c.ctx
+    g = c.view(self)
+    if not isinstance(result, Obj):
+        return
+    r = c.view(result)
+    idx = index if isinstance(index, tuple) else (index,)
+    a, b, st = A.slice_adjust(ctx, idx[0], g.N)
+    L = r.N
+    # C01.a: output sample k carries the time of input sample a + k*st; stop = start + len/sr
+    if g.t0 is None:
+        ctx.oblige("thm.C01.no-start-acquired", r.t0 is None, "post")
+    elif r.t0 is None:
+        ctx.oblige("thm.C01.start-kept", False, "post")
+    else:
+        def sample_time(k):
+            t_out = V.add(r.t0.sec, V.div(ctx, k, r.sr.val))
+            t_in = V.add(g.t0.sec, V.div(ctx, V.add(a, V.mul(k, st)), g.sr.val))
+            ctx.oblige("thm.C01.sample-time", V.eq(t_out, t_in), "post")
+        c.forall_int("k", 0, L, sample_time)
+        stop = c.attr(result, "stop_time") if not hasattr(result, "_real") else None
+        if stop is not None:
+            ctx.oblige("thm.C01.stop-time", V.eq(stop.sec, V.add(r.t0.sec, V.div(ctx, L, r.sr.val))) if isinstance(stop, STime) else False, "post")
+    ctx.oblige("thm.C01.rate-divided", V.eq(V.mul(r.sr.val, st), g.sr.val), "post")
+    # C02.a: labels of the selected channels survive
+    if g.is_a("RadioSignal"):
+        fa = 0
+        if len(idx) > 1 and isinstance(idx[1], SSlice):
+            fa, fb, fst = A.slice_adjust(ctx, idx[1], g.nchan)
+        # a stepped time slice of a *baseband* signal rescales chan_bw (= sample_rate): named apart
+        stepped_bb = g.is_a("BasebandSignal") and ctx.branch(V.lt(1, st), "spec:baseband stepped")
+        name = "thm.C02.labels-survive" + (".baseband-stepped" if stepped_bb else "")
+        c.forall_int("chan", 0, r.nchan, lambda i: ctx.oblige(name, V.eq(label(c, r, i), label(c, g, V.add(fa, i))), "post"))
+
+
+for _c in CONTRACTS:
+    if _c.qualname in ("pulsarbat.core.Signal.__getitem__", "pulsarbat.core.RadioSignal.__getitem__"):
+        _c.theorems = getitem_theorems
